@@ -70,4 +70,19 @@ theorem C02_table_rows_fit_the_columns (columns : Nat) (hc : 0 < columns) (posAr
     · exact Nat.le_of_lt h.2
   · exact h.1 r hr
 
+/-- Route M for calls, `table` and `grid` included (reflowed row by row by `convert_table`, or kept as a
+plain list): for every call of the covered fragment, every fuel, non-math context and configuration,
+whatever the printer returns renders at every width and indent unit to a layout that holds exactly the
+tokens, the prose and the literals of the call — every named argument and every cell, in source order,
+none lost, duplicated or moved across a row boundary.  No per-case certificate. -/
+theorem C02_fragment_call_keeps_every_argument (e : Env) (fuel : Nat) (ctx : Ctx) (hctx : NM ctx) (n : ANode)
+    (hk : n.kind = .funcCall) (hq : inFrag n = true)
+    (d : Twin.Doc) (k k' : St) (h : ((knot e fuel).expr ctx n).run k = .ok (d, k')) (u w : Nat) :
+    tokText (best w 0 [⟨0, .brk, d.fam u⟩]) = (specToks n).toList ∧
+    proseText (best w 0 [⟨0, .brk, d.fam u⟩]) = (specProse n).toList ∧
+    litText (best w 0 [⟨0, .brk, d.fam u⟩]) = (specLit n).toList := by
+  have hx : isExpr n = true := by unfold isExpr; rw [hk]; rfl
+  have := routeM_expr e fuel ctx hctx n hx hq d k k' h u w
+  exact ⟨this.1, this.2.2.1, this.2.2.2.1⟩
+
 end Typstyle
